@@ -23,6 +23,7 @@
 
 use crate::codec::SketchBytes;
 use crate::codec::SketchSlice;
+use crate::codec::assert::ensure_remaining;
 use crate::codec::assert::insufficient_data;
 use crate::codec::family::Family;
 use crate::common::NumStdDev;
@@ -214,6 +215,7 @@ impl Array6 {
         // The register array is stored in full in both the compact and the updatable form
         // (for HLL_6 and HLL_8 the two forms differ in the flag only).
         let _ = compact;
+        ensure_remaining(&cursor, num_bytes, 1, "data")?;
         let mut data = vec![0u8; num_bytes];
         cursor
             .read_exact(&mut data)
